@@ -95,9 +95,11 @@ class RunDomain(DefaultDomain):
         names = [norm(t) for t in (handler_type.elts if isinstance(handler_type, ast.Tuple) else [handler_type])]
         if any(n.split(".")[-1] == "BaseException" for n in names):
             return "yes"
-        if excvalue == USER_EXC:
-            # user code may raise anything: an `except Exception` misses KeyboardInterrupt
-            return "maybe"
+        if isinstance(excvalue, tuple) and len(excvalue) == 2 and isinstance(excvalue[1], str):
+            for n in names:
+                if excvalue[1].startswith(n.split(".")[-1] + ":"):
+                    return "yes"
+        # user code may raise anything: an `except Exception` misses KeyboardInterrupt
         return "maybe"
 
     def unknown_call(self, call, st):
@@ -141,7 +143,7 @@ class RunDomain(DefaultDomain):
                 out.append(exc(("framework", "pop from empty list"), st))
             return out
         if d == "self.case._cleanups.pop":
-            return [val(("tuple", ("user", "cleanup"), TOP, TOP), st)]
+            return [val(("tuple", ("user", "cleanup"), TOP, TOP), st), exc(("framework", "IndexError: pop from empty list"), st)]
         if d == "ExtendedToOriginalDecorator":
             return self._with_args(interp, call, st, fr, lambda s: [val(NOTNONE, s)])
         # calls on self: inline through the receiver's MRO
